@@ -543,6 +543,53 @@ def gen_c13(rng, n):
                                   "nodes": 1 if rng.random() < 0.1 else 0, "via": rng.choice(["new", "new", "with_ut_offset"])}}
 
 
+def gen_c13_long_designations():
+    """designations far beyond the allowed 3..7 bytes whose length is small again modulo a word size (256 + 3 ... 256 + 7,
+    65536 + 5): all made of valid characters, all to be refused for their length"""
+    for ln in [8, 9, 255, 256, 257, 258, 259, 260, 261, 262, 263, 264, 512 + 3, 512 + 7, 1024 + 5, 65536 + 3, 65536 + 7]:
+        yield {"op": "type", "a": {"off": 3600, "dst": 0, "des": [65 + (i % 26) for i in range(ln)], "nodes": 0, "via": "new"}}
+        yield {"op": "type", "a": {"off": -1, "dst": 1, "des": [67, 69, 84] + [32] * (ln - 3), "nodes": 0, "via": "new"}}
+
+
+def gen_c13_leap_rule_junction(rng, n):
+    """The trailing-rule condition where the three time scales meet: the last transition sits at (or one count around) the LAST
+    leap record, and the instant that count denotes is exactly (or one second around) a start / end instant of the rule. The last
+    transition's type is the rule's half just after, or the other half: the definitions decide which zones exist."""
+    for _ in range(n):
+        r = rand_rule(rng, near=False) if rng.random() < 0.5 else corpus_rule(rng.randrange(1000))
+        y = rng.randint(1975, 2090)
+        kind = rng.choice(["S", "E"])
+        u = rule_S(r, y) if kind == "S" else rule_E(r, y)              # the UTC instant of the rule's transition
+        if u < 10**8:
+            continue
+        k = rng.randint(1, 6)
+        neg = rng.random() < 0.35
+        lp = []
+        c = 0
+        t0 = u - k * rng.randint(2419200, 4 * 10**7)
+        for i in range(k - 1):
+            c += (-1 if neg else 1) if rng.random() < 0.8 else (1 if neg else -1)
+            if c == 0 and not lp:
+                c = -1 if neg else 1
+            lp.append([t0 + i * ((u - t0) // k), c])
+        cprev = c
+        clast = cprev + rng.choice([1, 1, -1])
+        if not lp and clast == 0:
+            clast = 1
+        du = rng.choice([0, 0, 0, 1, -1])
+        # the last record's own count: the inserted second shares the UTC value u + du of the second that follows it
+        R = u + du + cprev
+        if lp and R - lp[-1][0] < 2419199:
+            continue
+        lp.append([R, clast])
+        for dT in (-1, 0, 1, 2):
+            for half in (0, 1):
+                ty = [dict(r["std"]), dict(r["dst"])]
+                tr = [[R - rng.randint(10**6, 10**7), rng.randrange(2)], [R + dT, half]]
+                yield zone_event({"tr": tr, "ty": ty, "lp": [list(x) for x in lp], "rule": r})
+                yield {"op": "lookup", "a": {"u": W(u + rng.choice([-1, 0, 1])), "via": "ref"}}
+
+
 # ---- C05 / C06 / C17 ----
 def as_findn(rng, events):
     for e in events:
